@@ -636,6 +636,57 @@ def frontC (v : Variant) (tab : OrbitArgs.Tab) (G t : K) (com : Part K) (g : FAr
       | .error err => .error err.code
       | .ok p => .ok p
 
+/-- the arithmetic of the Python constructor `Particle.__init__` (rebound/particle.py:300-431) in Python's
+    operation order; `x**y` on floats is libm `pow`, `abs` is `fabs`, `math.pi` is `M_PI`, `math.cos` libm `cos`;
+    `M_to_f`, `E_to_f`, `reb_particle_from_pal`, `reb_particle_from_orbit_err` are the C routines it calls.
+    The decision part is `OrbitArgs.pyValidate tab`; ValueErrors are returned as the matching error number. -/
+def frontPy (v : Variant) (tab : OrbitArgs.Tab) (G t : K) (com : Part K) (g : FArgs K) : Except Nat (Part K) :=
+  let z0 : K := zero
+  let m := g.m.getD z0
+  match OrbitArgs.pyValidate tab (g.presence true) with
+  | .error e => .error e.code
+  | .ok .cartesian =>
+    .ok { m := m, x := g.x.getD z0, y := g.y.getD z0, z := g.z.getD z0,
+          vx := g.vx.getD z0, vy := g.vy.getD z0, vz := g.vz.getD z0 }
+  | .ok plan =>
+    let pr := g.primary.getD com
+    let a : K := match g.a with
+      | some a => a
+      | none =>
+        let P := g.P.getD z0
+        -- a = (P**2*simulation.G*(primary.m + self.m)/(4.*math.pi**2))**(1./3.)
+        pow (pow P two * G * (pr.m + m) / (four * pow OrbitK.pi two)) (one / three)
+    match plan with
+    | .pal _ _ _ =>
+      let h := g.h.getD z0; let k := g.k.getD z0; let l := g.l.getD z0
+      let ix := g.ix.getD z0; let iy := g.iy.getD z0
+      if lt four (ix * ix + iy * iy) then .error 12
+      else .ok (fromPal v G pr m a l k h ix iy)
+    | _ =>
+      let e := g.e.getD z0
+      let inc := g.inc.getD z0
+      let Omega := g.Omega.getD z0
+      let omega : K := match g.omega, g.pomega with
+        | none, none => z0
+        | _, some pw => if lt z0 (cos inc) then pw - Omega else Omega - pw
+        | some w, none => w
+      let f : K :=
+        match g.f, g.theta, g.l, g.T, g.M, g.E with
+        | none, none, none, none, none, none => z0
+        | some f, _, _, _, _, _ => f
+        | none, some th, _, _, _, _ => if lt z0 (cos inc) then th - Omega - omega else Omega - omega - th
+        | none, none, some l, _, _, _ =>
+          M_to_f v e (if lt z0 (cos inc) then l - Omega - omega else Omega - omega - l)
+        | none, none, none, some T, _, _ =>
+          -- n = (simulation.G*(primary.m+self.m)/abs(a**3))**0.5
+          let n := pow (G * (pr.m + m) / fabs (pow a three)) half
+          M_to_f v e (n * (t - T))
+        | none, none, none, none, some M, _ => M_to_f v e M
+        | none, none, none, none, none, some E => E_to_f e E
+      match fromOrbit v G pr m a e inc Omega omega f with
+      | .error err => .error err.code
+      | .ok p => .ok p
+
 end front
 
 end RV.Orbit
